@@ -4,7 +4,7 @@
    The modelled operations (Model.v, ModelF.v) contain every conversion / wrap modulo 2^w of the C and RecInt types and
    every IEEE rounding explicitly, so "= exact residue" states that no overflow, wrap or rounding is observable. *)
 From Coq Require Import ZArith List.
-From C03 Require Import Model ModelF ModelDK Params ProofsInt ProofsEuclid ProofsIntInv ProofsRU ProofsFM ProofsBI ProofsBarrett ProofsBarrettM ProofsPrecomp ProofsMisc ProofsBF ProofsEX ProofsBN ProofsRnd ProofsEXM ProofsBIQ ProofsDKR ProofsDKQ ProofsDKS ProofsDK ProofsFB ProofsFInv ProofsBIInv ProofsGE ProofsPrecompB ProofsPrecompBS ProofsPrecompBU ProofsTop ProofsTop2 ProofsTop3.
+From C03 Require Import Model ModelF ModelDK ModelIn Params ProofsInt ProofsEuclid ProofsIntInv ProofsRU ProofsFM ProofsBI ProofsBarrett ProofsBarrettM ProofsPrecomp ProofsMisc ProofsBF ProofsEX ProofsBN ProofsRnd ProofsEXM ProofsBIQ ProofsDKR ProofsDKQ ProofsDKS ProofsDK ProofsFB ProofsFInv ProofsBIInv ProofsGE ProofsPrecompB ProofsPrecompBS ProofsPrecompBU ProofsFused ProofsBIRest ProofsTop ProofsTop2 ProofsTop3 ProofsIn ProofsInB.
 Local Open Scope Z_scope.
 
 (* integral Modular<S,C>: every instantiated (Storage_t, Compute_t) pair, every p in [minCardinality, maxCardinality] *)
@@ -70,7 +70,10 @@ Print Assumptions C03_mul_precomp_p_exact.
    the asserted precondition 2 <= p < 2^(4*sizeof(Compute_t) - 2), canonical operands *)
 Theorem C03_precomp_p_then_mul_precomp_p_exact : forall sb sg cb p, Mulpp_chain_stmt sb sg cb p.   Proof. exact mulpp_chain_exact. Qed.
 Print Assumptions C03_precomp_p_then_mul_precomp_p_exact.
-(* Modular<Integer>: the code's case splits over exact Integer operations give the canonical residue, for every modulus >= 2 *)
+(* Modular<Integer>: add, sub, neg, axmyin, reduce (incl. negative values): the code's case splits over exact Integer operations give the
+   canonical residue, for every modulus >= 2.  The conjuncts for mul, axpy, axmy, maxpy are DEFINITIONAL (the model of Integer::modin IS
+   `mod p`: GMP's division is property C01's, not modelled here) and carry no information; likewise ru_reduce and the `mod p` inside
+   ru_mul / ru_axpy of the RecInt rings (RecInt::mod_n is C06's): only the wrap of the product modulo 2^w resp. 2^(2w) is C03's. *)
 Theorem C03_integer_ring_exact : forall p, ZZ_stmt p.             Proof. exact zz_exact. Qed.
 Print Assumptions C03_integer_ring_exact.
 Theorem C03_recint_isUnit_iff_gcd_one : RU_isUnit_adv_stmt.        Proof. exact ru_isUnit_adv. Qed.
@@ -88,8 +91,9 @@ Print Assumptions C03_balanced_int_neg_exact.
 Theorem C03_balanced_neg_hypotheses_satisfiable : bf_negn 53 4 2 = 2 /\ bi_negn 32 4 2 = 2 /\ bal_rep 4 (- 2) = 2.
 Proof. exact bf_negn_even. Qed.
 Print Assumptions C03_balanced_neg_hypotheses_satisfiable.
-(* the unrepaired r = -a (bf_neg / bi_neg of ModelF.v, what the code was before the fix): exact unless p is even and a = p/2, and
-   that case is refuted -- the dropped normalisation is necessary *)
+(* HISTORY (a body that no longer exists in /repo): the unrepaired r = -a (bf_neg / bi_neg of ModelF.v, the code before edb1d16) is
+   exact unless p is even and a = p/2, and that case is refuted -- i.e. the normalisation the repair added is necessary.  The models
+   that are extracted and run (driver.ml) are bf_negn / bi_negn / bi_maxpyn. *)
 Theorem C03_balanced_neg_partial : forall p a, 3 <= p -> bal_canon p a -> (p mod 2 = 1 \/ a <> p / 2) -> bf_neg a = bal_rep p (- a).
 Proof. exact bf_neg_exact_partial. Qed.
 Print Assumptions C03_balanced_neg_partial.
@@ -100,148 +104,3 @@ Print Assumptions C03_balanced_neg_refuted.
 Theorem C03_extended_ring_add_sub_neg_exact_advertised : EX_adv_stmt.   Proof. exact ex_adv. Qed.
 Print Assumptions C03_extended_ring_add_sub_neg_exact_advertised.
 
-(* ---------------------------------------------------------------- phase 3 *)
-(* the rounding layer itself: the model's round-to-nearest-even has relative error 2^-prec, is monotone, and leaves every
-   multiple of 2^k with at most prec significant bits unchanged; the correctly rounded quotient div_dy has the same error *)
-Theorem C03_rounding_relative_error : forall prec z, 0 < prec -> 2 ^ prec * Z.abs (rn prec z - z) <= Z.abs z.
-Proof. exact ProofsRnd.rn_err. Qed.
-Print Assumptions C03_rounding_relative_error.
-Theorem C03_rounding_exact_on_representable : forall prec k z, 0 < prec -> 0 <= k -> (2 ^ k | z) -> Z.abs z <= 2 ^ (k + prec) -> rn prec z = z.
-Proof. exact ProofsRnd.rn_exact_mult. Qed.
-Print Assumptions C03_rounding_exact_on_representable.
-(* ModularExtended<float|double>, the `#ifdef FP_FAST_FMA[F]` branch (abh = a*b; abl = fma(a,b,-abh); q = floor(abh*_invp);
-   pql = fma(-q,_p,abh); r = abl + pql; ONE of r >= p -> r - p, r < 0 -> r + p): for every advertised p and canonical operands the
-   result is (a*b) mod p; the quotient estimate is off by at most one in either direction ... *)
-Theorem C03_extended_mul_fma_exact_advertised : EX_mul_adv_stmt.   Proof. exact ex_mul_adv. Qed.
-Print Assumptions C03_extended_mul_fma_exact_advertised.
-(* ... and both correction steps are necessary: canonical operands with a negative raw result, and with a raw result >= p *)
-Theorem C03_extended_mul_fma_needs_negative_correction : exists p a b,
-  2 <= p <= 1125899906842623 /\ canon p a /\ canon p b /\ ex_mul_raw 53 p a b < 0.
-Proof. exact EX_mul_needs_neg_fix. Qed.
-Print Assumptions C03_extended_mul_fma_needs_negative_correction.
-Theorem C03_extended_mul_fma_needs_high_correction : exists p a b,
-  2 <= p <= 1125899906842623 /\ canon p a /\ canon p b /\ p <= ex_mul_raw 53 p a b.
-Proof. exact EX_mul_needs_hi_fix. Qed.
-Print Assumptions C03_extended_mul_fma_needs_high_correction.
-Theorem C03_extended_mul_hypotheses_satisfiable : ex_cfg 53 1125899906842623 /\ 2 <= 1125899906842623 <= 1125899906842623 /\
-  canon 1125899906842623 1125899906842622 /\ ex_mul 53 1125899906842623 1125899906842622 1125899906842622 = 1.
-Proof. exact ex_mul_hyps_sat. Qed.
-Print Assumptions C03_extended_mul_hypotheses_satisfiable.
-(* ModularBalanced<int32_t|int64_t>: the FULL statements (no tolerance hypothesis any more): the double quotient estimate
-   q = (Element)(double(a)*double(b)*_dinvp) (each operation rounded to 53 bits, truncation toward zero) meets q_tolerance for every
-   advertised p and balanced-canonical operands, hence mul / axpy / axmy return the canonical balanced representative *)
-Theorem C03_balanced_int_quotient_estimate_within_tolerance : forall w p, BI_tolerance_stmt w p.   Proof. exact bi_tolerance. Qed.
-Print Assumptions C03_balanced_int_quotient_estimate_within_tolerance.
-Theorem C03_balanced_int_mul_axpy_axmy_exact_advertised : BI_adv_stmt.   Proof. exact bi_adv. Qed.
-Print Assumptions C03_balanced_int_mul_axpy_axmy_exact_advertised.
-Theorem C03_balanced_int_hypotheses_satisfiable : BI_env 64 6074000999 /\ bal_canon 6074000999 3037000499 /\ bal_canon 6074000999 (- 3037000499).
-Proof. exact bi_full_hyps_sat. Qed.
-Print Assumptions C03_balanced_int_hypotheses_satisfiable.
-(* the Veltkamp constants (1 << 27)+1 / (1 << 13)+1 read from modular-extended.h on this run are those of the Dekker-branch model *)
-Theorem C03_extended_split_constants_as_in_source : dk_splitc 53 = 2 ^ split_shift_double + 1 /\ dk_splitc 24 = 2 ^ split_shift_float + 1.
-Proof. exact split_constants_ok. Qed.
-Print Assumptions C03_extended_split_constants_as_in_source.
-
-(* ModularExtended<float|double>, the `#elif defined __SSE_MATH__` branch (no FMA: plain g++ -O2, -mno-fma): Veltkamp split
-   (c = rn(C*x), C = 2^27+1 resp. 2^13+1; xh = rn(c - rn(c - x)); xl = rn(x - xh)) and Dekker's product with each of its nine
-   roundings explicit are ERROR-FREE on the operands that occur (|x| < 2^(pe-3)): s = rn(a*b), s + t = a*b exactly ... *)
-Theorem C03_extended_dekker_product_error_free : forall pe s a b, dk_cfg pe s -> Z.abs a < 2 ^ (pe - 3) -> Z.abs b < 2 ^ (pe - 3) ->
-  fst (dk_mult pe a b) = rn pe (a * b) /\ fst (dk_mult pe a b) + snd (dk_mult pe a b) = a * b.
-Proof. exact dk_mult_exact. Qed.
-Print Assumptions C03_extended_dekker_product_error_free.
-(* ... hence mult_dekker(a,b); q = floor(abh*_invp); mult_dekker(-q,_p); r = (abh+pqh)+(abl+pql); ONE of r >= p -> r-p, r < 0 -> r+p
-   returns (a*b) mod p for every advertised p and canonical operands (also axpy/axmy/maxpy; reduce of 0 <= y < 2^pe, y/p < 2^(pe-3)) *)
-Theorem C03_extended_mul_dekker_exact_advertised : DK_mul_adv_stmt.   Proof. exact dk_mul_adv. Qed.
-Print Assumptions C03_extended_mul_dekker_exact_advertised.
-(* both correction steps are necessary in this branch too; the first witness is the failing input of the seeded change C03-m6
-   (dropped `else if (r < 0) r += _p`): p = 2^50-27, mul(617310115345394, 590673388087151) would return -10557406229982 *)
-Theorem C03_extended_mul_dekker_needs_negative_correction : exists p a b, 2 <= p <= 1125899906842623 /\ canon p a /\ canon p b /\
-  dk_mul_no_neg_fix 53 p a b <> (a * b) mod p.
-Proof. exact dk_mul_needs_neg_fix. Qed.
-Print Assumptions C03_extended_mul_dekker_needs_negative_correction.
-Theorem C03_extended_mul_dekker_needs_high_correction : exists p a b, 2 <= p <= 1125899906842623 /\ canon p a /\ canon p b /\
-  dk_mul_no_hi_fix 53 p a b <> (a * b) mod p.
-Proof. exact dk_mul_needs_hi_fix. Qed.
-Print Assumptions C03_extended_mul_dekker_needs_high_correction.
-Theorem C03_extended_mul_dekker_refuted_value : dk_mul_raw 53 1125899906842597 617310115345394 590673388087151 = - 10557406229982.
-Proof. exact dk_mul_raw_negative. Qed.
-Print Assumptions C03_extended_mul_dekker_refuted_value.
-(* the `#else` fallback branch (fmod of the double product / RecInt lmul + mod_n) *)
-Theorem C03_extended_mul_fallback_exact_advertised : FB_mul_adv_stmt.   Proof. exact fb_mul_adv. Qed.
-Print Assumptions C03_extended_mul_fallback_exact_advertised.
-(* whichever branch index the compiled implementation reports, the model the correspondence run drives is exact *)
-Theorem C03_extended_mul_every_preprocessor_branch_exact_advertised : XB_mul_adv_stmt.   Proof. exact xb_mul_adv. Qed.
-Print Assumptions C03_extended_mul_every_preprocessor_branch_exact_advertised.
-
-(* inv / div / isUnit of the floating rings: extended_euclid<floating Storage_t> (modular-general.inl) with q = floor(u3 / v3)
-   computed from the ROUNDED quotient.  The floor of the correctly rounded quotient of two integers of magnitude <= 2^prec is the
-   exact floor ... *)
-Theorem C03_floating_quotient_floor_exact : fquot_exact_stmt.   Proof. exact fquot_exact. Qed.
-Print Assumptions C03_floating_quotient_floor_exact.
-(* ... so the loop is the exact signed extended Euclid (every one of its four roundings per step is the identity): d = gcd(a,b),
-   |x| <= b, x*a = d (mod b); it terminates *)
-Theorem C03_floating_extended_euclid_exact : feuclid_exact_stmt.   Proof. exact feuclid_exact. Qed.
-Print Assumptions C03_floating_extended_euclid_exact.
-(* Modular<float>, Modular<float,double>, Modular<double>; ModularExtended<float|double> (div through the FMA-branch mul);
-   ModularBalanced<float|double> (operands may be negative): for every p up to maxCardinality and every unit divisor the inverse /
-   quotient is the canonical exact one, and isUnit(a) <-> gcd(a,p) = 1 for every canonical a *)
-Theorem C03_floating_inv_exact : FM_inv_stmt.           Proof. exact fm_inv_exact. Qed.
-Print Assumptions C03_floating_inv_exact.
-Theorem C03_floating_div_divin_exact : FM_div_stmt.     Proof. exact fm_div_exact. Qed.
-Print Assumptions C03_floating_div_divin_exact.
-Theorem C03_floating_isUnit_iff_gcd_one : FM_isUnit_stmt.   Proof. exact fm_isUnit_exact. Qed.
-Print Assumptions C03_floating_isUnit_iff_gcd_one.
-Theorem C03_extended_inv_exact : EX_inv_stmt.           Proof. exact ex_inv_exact. Qed.
-Print Assumptions C03_extended_inv_exact.
-Theorem C03_extended_div_divin_exact : EX_div_stmt.     Proof. exact ex_div_exact. Qed.
-Print Assumptions C03_extended_div_divin_exact.
-Theorem C03_extended_isUnit_iff_gcd_one : EX_isUnit_stmt.   Proof. exact ex_isUnit_exact. Qed.
-Print Assumptions C03_extended_isUnit_iff_gcd_one.
-Theorem C03_balanced_floating_inv_exact : BF_inv_stmt.  Proof. exact bf_inv_exact. Qed.
-Print Assumptions C03_balanced_floating_inv_exact.
-Theorem C03_balanced_floating_div_exact : BF_div_stmt.  Proof. exact bf_div_exact. Qed.
-Print Assumptions C03_balanced_floating_div_exact.
-Theorem C03_balanced_floating_isUnit_iff_gcd_one : BF_isUnit_stmt.   Proof. exact bf_isUnit_exact. Qed.
-Print Assumptions C03_balanced_floating_isUnit_iff_gcd_one.
-
-(* ModularBalanced<int32_t|int64_t>::inv (invext on (a < 0) ? a + _p : a, then NORMALISE) and ::div (mul by the inverse), through the
-   generic extended_euclid theorem and the full mul theorem: every p in the proved envelope BI_env (contains the advertised range) *)
-Theorem C03_balanced_int_inv_exact : forall w p, BI_inv_stmt w p.   Proof. exact bi_inv_exact. Qed.
-Print Assumptions C03_balanced_int_inv_exact.
-Theorem C03_balanced_int_div_exact : forall w p, BI_div_stmt w p.   Proof. exact bi_div_exact. Qed.
-Print Assumptions C03_balanced_int_div_exact.
-Theorem C03_balanced_int_inv_hypotheses_satisfiable :
-  BI_env 64 6074000999 /\ bal_canon 6074000999 (- 3037000499) /\ Z.gcd (- 3037000499) 6074000999 = 1.
-Proof. exact bi_inv_hyps_sat. Qed.
-Print Assumptions C03_balanced_int_inv_hypotheses_satisfiable.
-(* precomp_b(invb, b) followed by mul_precomp_b (Shoup's multiplication by a precomputed operand): with invb = floor(2^(4s) b / p) and
-   q = floor(a * invb / 2^(4s)) the quotient is the true one or one less (pure arithmetic) ... *)
-Theorem C03_shoup_quotient_within_one : forall a b p N, 0 < p -> 0 < N -> 0 <= a <= N -> 0 <= b ->
-  (a * b) / p - 1 <= (a * ((N * b) / p)) / N <= (a * b) / p.
-Proof. exact shoup_bound. Qed.
-Print Assumptions C03_shoup_quotient_within_one.
-(* ... and the modelled code with all conversions (the Residu_t product and q*_p really wrap for the 32/64 and 64/128 pairs) returns
-   (a*b) mod p for all 16 (width, signedness, compute width) cases inside the asserted precondition bitsize(p) <= 4*sizeof(Compute_t) - 1 *)
-Theorem C03_mul_precomp_b_exact : forall sb sg cb p, Mulpb_stmt sb sg cb p.   Proof. exact mulpb_exact. Qed.
-Print Assumptions C03_mul_precomp_b_exact.
-
-(* the UPPER comparison of the last correction of ModularExtended::reduce and ::mul must be `>=`: the value it receives is EXACTLY p
-   when the argument / product is an exact non-zero multiple of p and the cached reciprocal fl(1/p) is rounded downwards (seeded
-   change C03-m8 replaced it by `>`): witnesses p = 49 (double), 41 / 55 (float), FMA and Dekker branch, raw value = p, `>` variant wrong *)
-Theorem C03_extended_reduce_fma_upper_comparison_must_be_ge :
-  GE_needed_reduce 53 1125899906842623 ex_reduce_raw ex_reduce_gt /\ GE_needed_reduce 24 2097151 ex_reduce_raw ex_reduce_gt.
-Proof. exact (conj ge_needed_reduce_fma_double ge_needed_reduce_fma_float). Qed.
-Print Assumptions C03_extended_reduce_fma_upper_comparison_must_be_ge.
-Theorem C03_extended_reduce_dekker_upper_comparison_must_be_ge :
-  GE_needed_reduce 53 1125899906842623 dk_reduce_raw dk_reduce_gt /\ GE_needed_reduce 24 2097151 dk_reduce_raw dk_reduce_gt.
-Proof. exact (conj ge_needed_reduce_dekker_double ge_needed_reduce_dekker_float). Qed.
-Print Assumptions C03_extended_reduce_dekker_upper_comparison_must_be_ge.
-Theorem C03_extended_mul_upper_comparison_must_be_ge :
-  GE_needed_mul 53 1125899906842623 ex_mul_raw ex_mul_gt /\ GE_needed_mul 24 2097151 ex_mul_raw ex_mul_gt /\
-  GE_needed_mul 53 1125899906842623 dk_mul_raw dk_mul_gt /\ GE_needed_mul 24 2097151 dk_mul_raw dk_mul_gt.
-Proof. exact (conj ge_needed_mul_fma_double (conj ge_needed_mul_fma_float (conj ge_needed_mul_dekker_double ge_needed_mul_dekker_float))). Qed.
-Print Assumptions C03_extended_mul_upper_comparison_must_be_ge.
-(* in the fallback branch (fmod) the remainder is strictly inside (-p, p): `>=` and `>` agree there, the comparison is not critical *)
-Theorem C03_extended_reduce_fallback_comparison_not_critical : forall pe mx p, FB_gt_same_stmt pe mx p.
-Proof. exact fb_gt_same. Qed.
-Print Assumptions C03_extended_reduce_fallback_comparison_not_critical.
